@@ -3,20 +3,13 @@
 import os, sys
 sys.path.insert(0, os.path.dirname(os.path.abspath(__file__)))
 from states import UNIT as _ST, adt, F_HS, F_MSG, F_AL, F_EC
+from derived_common import newtype_items, INT_SHIMS
 
 _types = [it for it in _ST["items"] if it["kind"] in ("struct", "enum", "newtype_enum") and it["file"] in (F_HS, F_MSG, F_AL, F_EC)]
 
 SPEC = r'''
 pub open spec fn be16s(s: Seq<u8>, o: int) -> int { (s[o] as int) * 256 + (s[o + 1] as int) }
 
-// derive(NomBE) on a u8 newtype is be_u8 followed by the constructor.
-// ASSUMED here; OBLIGATION of Kani harness leaf_msg_heartbeat (type == byte 0 for every value).
-impl TlsHeartbeatMessageType {
-    #[verifier::external_body]
-    pub fn parse<'a>(i: &'a [u8]) -> (r: IResult<&'a [u8], TlsHeartbeatMessageType>)
-        ensures be_post(1, i@, r, |v: TlsHeartbeatMessageType| v.0 as int),
-    { unimplemented!() }
-}
 
 // heartbeat (RFC 6520 4): type u8, payload_length u16, payload, then padding (left as remainder);
 // a record shorter than the 3-byte header is rejected; a payload_length beyond the data never yields a value
@@ -37,10 +30,12 @@ pub open spec fn heartbeat_post(i: Seq<u8>, rec_len: u16, r: IResult<&[u8], Vec<
 
 UNIT = {
     "name": "messages",
+    "needs_expanded": True,
     "property": ["C03", "C01", "C06", "C11"],
     "prelude": ["shim_nom.rs"],
     "items": _types + [
-        {"file": "-", "kind": "inline", "name": "message-contracts", "text": SPEC},
+        {"file": "-", "kind": "inline", "name": "message-contracts", "text": INT_SHIMS + SPEC},
+    ] + newtype_items("TlsHeartbeatMessageType", 1) + [
         {"file": F_MSG, "kind": "fn", "name": "parse_tls_message_heartbeat", "contract": "    ensures heartbeat_post(i@, tls_plaintext_len, r),",
          "splices": [{"at_start": True, "text": "    let ghost i0 = i@;\n    proof { reveal_with_fuel(be_val, 3); }"},
                      {"after": r"let \(i, heartbeat_type\) = TlsHeartbeatMessageType::parse\(i\)\?;", "text": "    let ghost i1 = i@;\n    proof { assert(i1 =~= i0.subrange(1, i0.len() as int)); assert(heartbeat_type.0 == i0[0]); }"},
